@@ -134,12 +134,15 @@ contract('mapproxy.service.wmts:meter_per_unit', props=['C02'],
 # ---- KML: the rectangle advertised for a sub tile is the FULL rectangle of the tile that is served ---------------------------
 def _kml_subtile(ex, st, k):
     import z3
+    from pyvc.values import eq, VNone, VSeq
     evs_ = st.trace[getattr(st, 'iter_start_trace', 0):]
-    coord = st.env.get('coord')
+    pre = st.iter_start_state
+    coord0 = pre.env['coord']          # opt[tuple]: the internal address produced by the grid for this iteration
     tb = [e for e in evs_ if e.name == 'tile_bbox']
     wgs = [e for e in evs_ if e.name in ('_tile_bbox_to_wgs', 'KMLServer._tile_bbox_to_wgs')]
     sub = [e for e in evs_ if e.name in ('SubTile', '__init__')]
     ext = [e for e in evs_ if e.name == 'external_tile_coord']
+    flp = [e for e in evs_ if e.name == 'flip_tile_coord']
     ok = True
     for e in tb:
         a = [x for x in e.args if x is not e.recv]
@@ -147,11 +150,66 @@ def _kml_subtile(ex, st, k):
     if sub:
         ok = ok and len(tb) == 1 and len(wgs) == 1 and len(sub) == 1 and len(ext) == 1
         if ok:
-            wa = [x for x in wgs[0].args]
+            wa = [x for x in wgs[0].args if x is not wgs[0].recv][:1]      # first argument: the rectangle (second: the grid)
             ok = any(x is tb[0].result or (hasattr(x, 'val') and x.val is tb[0].result) for x in wa) and sub[0].args[-1] is wgs[0].result
     yield ('kml_subtile_full_rectangle', z3.BoolVal(bool(ok)),
            'each advertised sub tile: bbox = grid.tile_bbox(coord) without limit (the full rectangle of the tile that is '
            'served at that address), transformed to WGS84, attached to the external address of that very coord')
+    # --- which sub tiles are advertised, and under which address
+    s0, s1 = pre.env['subtiles'], st.env['subtiles']
+    bbox = st.env['bbox']
+    isnone = coord0.isnone if hasattr(coord0, 'isnone') else z3.BoolVal(isinstance(coord0, VNone))
+    if not tb:
+        yield ('kml_only_missing_coords_skipped', z3.And(isnone, s1.length() == s0.length()),
+               'only a coordinate the grid reports as outside (None) is skipped without looking at its rectangle')
+        return
+    c_in = coord0.val if hasattr(coord0, 'isnone') else coord0
+    sb = tb[0].result
+    delta = z3.RealVal('-1/10000000')
+    inside = z3.And(sb.items[0].t - bbox.items[0].t > delta, sb.items[1].t - bbox.items[1].t > delta)
+    g_tb = eq([x for x in tb[0].args if x is not tb[0].recv][0], c_in)
+    yield ('kml_rectangle_of_this_coord', z3.And(z3.Not(isnone), g_tb), 'the rectangle examined is that of this very coordinate')
+    grew = z3.And(s1.length() == s0.length() + 1, eq(s1.elem(s0.length()), sub[0].result)) if len(sub) == 1 else z3.BoolVal(False)
+    same = z3.And(s1.length() == s0.length(), z3.BoolVal(not sub))
+    yield ('kml_subtile_iff_lower_left_inside', z3.If(inside, grew, same),
+           'a sub tile is advertised exactly when its lower-left corner lies inside the rectangle of the parent tile (so every '
+           'child appears in exactly one parent document), and then exactly once')
+    if len(sub) == 1 and len(ext) == 1:
+        origin = ex.opaque_field(pre, ex.opaque_field(pre, st.env['layer'], 'grid'), 'origin')
+        from pyvc.values import VStr
+        lower = z3.Or(origin.isnone, eq(origin.val, VStr('ll')), eq(origin.val, VStr('sw')))
+        g = z3.And(eq(ext[0].args[-1] if not ext[0].kwargs.get('tile_coord') else ext[0].kwargs['tile_coord'], c_in),
+                   z3.BoolVal('use_profiles' in ext[0].kwargs), z3.Not(ex.truth(st, ext[0].kwargs.get('use_profiles', VNone()))))
+        if flp:
+            addr = z3.And(z3.Not(lower), z3.BoolVal(len(flp) == 1 and flp[0].args[-1] is ext[0].result and sub[0].args[0] is flp[0].result))
+        else:
+            addr = z3.And(lower, z3.BoolVal(sub[0].args[0] is ext[0].result))
+        yield ('kml_subtile_address', z3.And(g, addr),
+               'the advertised address is the external (non-profile) address of this coordinate, y-flipped exactly for grids '
+               'whose origin is not the lower left')
+
+
+def _kml_children(ex, st, post, result):
+    import z3
+    from pyvc.values import eq, VInt
+    tr_, layer = post.env['tile_request'], post.env['layer']
+    tb = [e for i, e in T.evs(st, 'tile_bbox')]
+    itc = [e for i, e in T.evs(st, 'internal_tile_coord')]
+    gal = [e for i, e in T.evs(st, 'get_affected_level_tiles')]
+    ok = len(itc) == 1 and len(gal) == 1 and len(tb) >= 1 and tb[0].recv is not None and tb[0].recv.t.eq(layer.t)
+    g = z3.BoolVal(bool(ok))
+    if ok:
+        tile = ex.opaque_field_at(st, itc[0], tr_, 'tile')
+        arg = itc[0].args[-1]
+        g = z3.And(g, eq(arg.items[0], tile.items[0]), eq(arg.items[1], tile.items[1]), arg.items[2].t == tile.items[2].t + 1,
+                   z3.Not(ex.truth(st, itc[0].kwargs['use_profiles'])) if 'use_profiles' in itc[0].kwargs else z3.BoolVal(False),
+                   # the children are looked up in the rectangle of the parent, limited to the grid, on the next level
+                   eq(gal[0].args[-2], tb[0].result) if hasattr(gal[0].args[-2], 'items') else z3.BoolVal(False),
+                   gal[0].args[-1].t == itc[0].result.items[2].t if hasattr(gal[0].args[-1], 't') else z3.BoolVal(False),
+                   z3.BoolVal('limit' in tb[0].kwargs), ex.truth(st, tb[0].kwargs.get('limit', VInt(0))),
+                   z3.BoolVal(tb[0].args[-1].t.eq(tr_.t)))
+    yield ('kml_children_from_next_level_in_parent_rectangle', g,
+           'children = the tiles of level z+1 (internal numbering) that the grid reports for the rectangle of the requested tile')
 
 
 contract('mapproxy.service.kml:KMLServer._get_subtiles', props=['C02'],
@@ -163,5 +221,6 @@ contract('mapproxy.service.kml:KMLServer._get_subtiles', props=['C02'],
                       'SubTile': {'pure': True}},
          opaque=['_tile_bbox_to_wgs', 'SubTile', 'tile_bbox', 'internal_tile_coord', 'external_tile_coord', 'flip_tile_coord',
                  'get_affected_level_tiles'],
-         opaque_fields={'tile': 'tuple[int,int,int]'}, stable_fields=['tile'],
-         loops={0: dict(inv=[], types={'subtiles': 'list[opaque]'}, body_trace=[_kml_subtile])})
+         opaque_fields={'tile': 'tuple[int,int,int]', 'grid': 'opaque', 'origin': 'opt[str]'}, stable_fields=['tile', 'grid', 'origin'],
+         loops={0: dict(inv=[], types={'subtiles': 'list[opaque]'}, body_trace=[_kml_subtile])},
+         trace=[_kml_children])
